@@ -62,8 +62,10 @@ class Ctx:
         with self.lock:
             for k in self.known:
                 if k.get("status") == "open" and re.fullmatch(k["signature"], signature):
-                    self.known_hits.setdefault(k["id"], {"entry": k, "n": 0, "first": what})
+                    self.known_hits.setdefault(k["id"], {"entry": k, "n": 0, "first": what, "signatures": set()})
                     self.known_hits[k["id"]]["n"] += 1
+                    if len(self.known_hits[k["id"]]["signatures"]) < 40:
+                        self.known_hits[k["id"]]["signatures"].add(signature)
                     return
             n = len(self.violations)
             self.violations.append((signature, what))
@@ -89,6 +91,7 @@ class Ctx:
             "samples": self.samples[:10],
             "histogram": dict(sorted(self.hist.items())),
             "known_findings_hit": {k: v["n"] for k, v in self.known_hits.items()},
+            "known_findings_signatures": {k: sorted(v["signatures"]) for k, v in self.known_hits.items()},
             "exhaustive": self.exhaustive,
         }
         cov.update(self.extra)
